@@ -22,6 +22,22 @@ def _iterate_dict_like(iterable: KeyValuePairs) -> List[Tuple[Any, Any]]:
     return list(iterable)
 
 
+def _entry_ref_path(cfg: Config, dict_field: "DictField", key: Any) -> str:
+    """
+    Get the full reference path to a dictionary entry. The path starts at the owning
+    configuration, which knows its position in the live tree (list index, config type key),
+    rather than at the field's schema.
+    """
+    cfg_path = getattr(cfg, "_ref_path", None)
+    if cfg_path is None:
+        path = dict_field._ref_path
+    elif cfg_path:
+        path = "%s.%s" % (cfg_path, dict_field._key)
+    else:
+        path = dict_field._key
+    return "%s[%s]" % (path, key)
+
+
 class DictProxy(dict):
     """
     A Field-validated :class:`dict` proxy. This proxy supports all methods that the builtin
@@ -104,7 +120,7 @@ class DictProxy(dict):
         super().__setitem__(key, value)
 
     def _ref_path(self, key: str) -> str:
-        return "%s[%s]" % (self.dict_field._ref_path, key)
+        return _entry_ref_path(self.cfg, self.dict_field, key)
 
     def _validate(self, key: Any, value: Any) -> Tuple[Any, Any]:
         try:
@@ -244,7 +260,7 @@ class DictField(Field):
                         cfg,
                         self,
                         "invalid dictionary value: %s" % exc,
-                        ref_path="%s[%s]" % (self._ref_path, key),
+                        ref_path=_entry_ref_path(cfg, self, key),
                     ) from exc
             value = converted
         return DictProxy(cfg, self, value)
